@@ -360,11 +360,12 @@ class C16(Property):
         # (3) volume of the solver's output: must return whatever the size
         sizes = [1000, 60000, 70000, 300000] if tier == "quick" else [1000, 30000, 65535, 65536, 65537, 70000, 131072, 300000, 1000000]
         timings = {}
-        for sz in sizes:
+        for sz in sizes + [-x for x in sizes[1:]]:      # negative: the same volume on the solver's standard error stream
+            fk = "big:%d" % sz if sz > 0 else "bigerr:%d" % -sz
             st = os.path.join(runner.dir, "vol_state_%d" % sz)
             env = dict(common.env_offline(), FAKE_STATE=st)
             env.pop("FAKE_CAPTURE", None)
-            case = "sat v%d backend=%s ops=c:1,2;c:-1;s fake_at=1 fake_kind=big:%d" % (sz, FAKE, sz)
+            case = "sat v%d backend=%s ops=c:1,2;c:-1;s fake_at=1 fake_kind=%s" % (abs(sz), FAKE, fk)
             cf = os.path.join(runner.dir, "vol_%d.case" % sz)
             open(cf, "w").write(case + "\n")
             t0 = time.time()
@@ -372,13 +373,13 @@ class C16(Property):
                 pr = subprocess.run([common.VH, cf], env=env, stdout=subprocess.PIPE, stderr=subprocess.DEVNULL, text=True, timeout=25)
                 timings[str(sz)] = round(time.time() - t0, 2)
                 if "-> s -+" not in pr.stdout:
-                    findings.append(Finding("input", case, "solver output of %d bytes: the model was not reported (%r)" % (sz, pr.stdout[-80:]),
+                    findings.append(Finding("input", case, "solver output of %d bytes (%s): the model was not reported (%r)" % (abs(sz), "stdout" if sz > 0 else "stderr", pr.stdout[-80:]),
                                             "volume · result lost with large output"))
             except subprocess.TimeoutExpired:
                 timings[str(sz)] = "timeout"
-                findings.append(Finding("input", case, "the call does not return when the solver prints %d bytes before its answer (deadlock on the stdout pipe)" % sz,
-                                        "volume · call hangs when the output exceeds the pipe capacity",
-                                        {"how": "FAKE_STATE=<file> vh <case file>: the scripted solver prints %d bytes of comments before kissat's answer" % sz}))
+                findings.append(Finding("input", case, "the call does not return when the solver prints %d bytes on its %s before its answer (deadlock on a pipe)" % (abs(sz), "stdout" if sz > 0 else "stderr"),
+                                        "volume · call hangs when the %s output exceeds the pipe capacity" % ("stdout" if sz > 0 else "stderr"),
+                                        {"how": "FAKE_STATE=<file> vh <case file>: the scripted solver prints %d bytes of comments before kissat's answer" % abs(sz)}))
                 break
         import shutil
         shutil.rmtree(getattr(self, "base", "/nonexistent"), ignore_errors=True)
